@@ -308,9 +308,17 @@ func rangeLoopCase(v []int, asVar []bool, destructure bool) Case {
 	return Case{Kind: "loop", Pre: prelude(used...) + "n := 0\n", Src: head + "    n := n + 1\n    if n > 3 {\n        break\n    }\n}", Key: key + names + ")"}
 }
 
+// maxVector is the length up to which argument vectors are enumerated completely.
+func maxVector() int {
+	if hx.Thorough() {
+		return 3
+	}
+	return 2
+}
+
 func builtinMatrix(yield func(Case) bool) {
 	for _, fn := range builtins() {
-		for n := 0; n <= 2; n++ {
+		for n := 0; n <= maxVector(); n++ {
 			if !vectors(n, func(v []int) bool { return yield(builtinCase(fn, v, nil)) }) {
 				return
 			}
@@ -423,7 +431,11 @@ func accessMatrix(yield func(Case) bool) {
 				!mk("add-assign", "c := add(c, 9, "+k.Lit+")\nc["+k.Lit+"]", k.Name) {
 				return
 			}
-			for _, k2 := range indexKinds2 {
+			second := indexKinds2
+			if hx.Thorough() {
+				second = indexKinds
+			}
+			for _, k2 := range second {
 				if !mk("read2", "c["+k.Lit+"]["+k2.Lit+"]", k.Name, k2.Name) ||
 					!mk("write2", "c["+k.Lit+"]["+k2.Lit+"] := 9", k.Name, k2.Name) {
 					return
@@ -477,7 +489,7 @@ func directedSets(yield func(Case) bool) {
 			{"while-not", "n := 0\nfor not v {\n    n := n + 1\n    if n > 2 {\n        break\n    }\n}"},
 			{"mapkey", "{v : 1}"}, {"mapkey2", "{1 : 2, v : 3, v : 4}"}, {"mapkeyval", "m := {v : v}\nm[v]"}, {"map-write-key", "m := {}\nm[v] := 1\nm[v]"}, {"map-del-key", "m := {1 : 2}\ndel(m, v)"},
 			{"list-elem", "[v, [v], {\"a\" : v}]"}, {"in-list", "v in [v]"}, {"notin-list", "v notin [[v]]"}, {"eq-self", "v == v"}, {"neq-self", "[v] != [v]"},
-			{"return", "func f() {\n    return v\n}\nf()"}, {"default-param", "func f(a=v) {\n    return a\n}\nf()"}, {"param", "func f(a, b) {\n    return a\n}\nf(v)\nf(v, v, v)"},
+			{"return", "func f() {\n    return v\n}\nf()"}, {"default-param", "func f(a=v) {\n    return a\n}\nf()"}, {"param", "func f(a, b) {\n    return a\n}\nf(v)\nf(v, v, v)"}, {"default-fails", "func f(a=v[5], b=zz.y) {\n    return a\n}\nf(1)\nf()"},
 			{"interpolate", "\"x{{v}}y\""}, {"raise-data", "raise(v, v, v)"}, {"raise-in-func", "func f() {\n    raise(v)\n}\nf()"},
 			{"import-path", "import \"{{v}}\" as x"}, {"mutex", "mutex m {\n    a := v + 1\n}"}, {"mutex-reenter", "mutex m {\n    mutex m {\n        a := v[5]\n    }\n}"},
 			{"method-this", "o := new({\"x\" : v, \"get\" : func() {\n    return this.x[5]\n}})\no.get()"},
@@ -486,6 +498,29 @@ func directedSets(yield func(Case) bool) {
 			{"init-this-index", "o := new({\"init\" : func(a) {\n    this[a] := a\n}}, v)"},
 		} {
 			if !yield(Case{Kind: "directed", Pre: pre, Src: f.src, Key: "directed:" + f.form + "(" + v.Name + ")"}) {
+				return
+			}
+		}
+	}
+
+	// the assignment target is read before the right side is evaluated and written afterwards: a right side
+	// which changes the container in between reaches the bounds / kind checks of the write path on their own
+	for _, to := range []cval{{"shorter-list", "del(l, 1)"}, {"empty-list", "[]"}, {"number", "5"}, {"null", "null"}, {"map", "{}"}, {"string", "\"ab\""}, {"list-of-scalars", "[1, 2]"}} {
+		for _, target := range []string{"l[1][0]", "l[1]", "l[-2][0]", "l[-2]", "l[1][0][0]", "l[1][-1]", "[l[1][0], x]", "[x, l[-2]]"} {
+			src := "l := [[[1]], [[2]]]\nfunc f() {\n    l := " + to.Lit + "\n    return [[9]]\n}\n" + target + " := f()"
+			if strings.HasPrefix(target, "[") {
+				src = strings.Replace(src, ":= f()", ":= [f(), f()]", 1)
+			}
+			if !yield(Case{Kind: "directed", Src: src, Key: "directed:target-changes-during-assignment(" + target + "," + to.Name + ")"}) {
+				return
+			}
+		}
+		for _, target := range []string{"m.a.b", "m.a", "m.a.b.c", "[m.a.b, x]"} {
+			src := "m := {\"a\" : {\"b\" : {\"c\" : 1}}}\nfunc f() {\n    m := " + strings.Replace(to.Lit, "del(l, 1)", "{\"a\" : 1}", 1) + "\n    return 9\n}\n" + target + " := f()"
+			if strings.HasPrefix(target, "[") {
+				src = strings.Replace(src, ":= f()", ":= [f(), f()]", 1)
+			}
+			if !yield(Case{Kind: "directed", Src: src, Key: "directed:target-changes-during-assignment(" + target + "," + to.Name + ")"}) {
 				return
 			}
 		}
@@ -530,17 +565,17 @@ func directedSets(yield func(Case) bool) {
 
 func TestExhaustive(t *testing.T) {
 	hx.Enumerate(t, "builtins", builtinMatrix, runCase)
-	hx.E.Exhaustive("builtins", map[string]interface{}{"functions": builtins(), "argument_vectors": "length 0..2 over U; +-Inf, NaN, -0 in each of the first three positions", "stdlib_functions": "every standard library function x vectors of length 0..1", "range_as_loop_iterator": "vectors of length 0..2 (destructuring head for length 1)", "universe": universeNames()})
+	hx.E.Exhaustive("builtins", map[string]interface{}{"functions": builtins(), "argument_vectors": fmt.Sprintf("length 0..%d over U; +-Inf, NaN, -0 in each of the first three positions", maxVector()), "stdlib_functions": "every standard library function x vectors of length 0..1", "range_as_loop_iterator": "vectors of length 0..2 (destructuring head for length 1)", "universe": universeNames()})
 	hx.Enumerate(t, "operators", opMatrix, runCase)
 	hx.E.Exhaustive("operators", "19 binary operators x (U + {+Inf, -Inf, NaN, -0}) x (U + the same) (literal operands), 3 prefix operators x U (literal and variable operand)")
 	hx.Enumerate(t, "access", accessMatrix, runCase)
-	hx.E.Exhaustive("access", map[string]interface{}{"containers": names(containers), "index_kinds": inames(indexKinds), "second_level_index_kinds": inames(indexKinds2),
+	hx.E.Exhaustive("access", map[string]interface{}{"containers": names(containers), "index_kinds": inames(indexKinds), "second_level_index_kinds": map[bool]interface{}{false: inames(indexKinds2), true: "all index kinds"}[hx.Thorough()],
 		"forms": "read, write, call, dot read/write after index, del, add (x index kind); two level read / write (x index kind x second level kind); 50 dotted / call / doc / new forms"})
 	hx.Enumerate(t, "directed", directedSets, runCase)
-	hx.E.Exhaustive("directed", "48 destructuring / guard / literal / function / object forms x (U + 12 list shapes); 24 raising statements x 15 try/except shapes")
+	hx.E.Exhaustive("directed", "49 destructuring / guard / literal / function / object forms x (U + 12 list shapes); 12 assignment targets x 7 replacement values for a container changed by the right side; 24 raising statements x 15 try/except shapes")
 	hx.Enumerate(t, "corpus", corpusSet, runCase)
 	hx.Enumerate(t, "sinks", sinkMatrix, runCase)
-	hx.E.Exhaustive("sinks", "each of the five sink attributes x U (declaration only); statematch value x event state value over U x U and scope argument over U through Processor.ProcessEvent; every 9th also through the pool")
+	hx.E.Exhaustive("sinks", "each of the five sink attributes x U; statematch value x event state value over U x U; scope argument, scope values, event name / kind / state over U; 20 sink bodies x state value over U - all through Processor.ProcessEvent on the calling goroutine, every 9th case (thorough: every case) also through the pool with addEventAndWait")
 }
 
 func universeNames() []string {
